@@ -159,6 +159,11 @@ class C17(RailsProp):
                             out.violate("template-evaluated", "%s:%s:%s" % (mode, task, name), "LLM reply %r at call %d (%s): its message text came back as %r - the %r syntax was evaluated/substituted: %r"
                                         % (text, pos, task, m_out.group(0), opener, rec.reply), pin={"hostile": [list(fault)]})
                             break
+            # texts ending in the marker Q8end: if the marker reached the reply, the text before it must have come along literally
+            if name.startswith("dollar-") and isinstance(rec.reply, str) and "Q8end" in rec.reply and "Q8end" not in base_replies:
+                lit = text.strip().strip('"')
+                if lit not in rec.reply:
+                    out.violate("template-evaluated", "%s:%s:%s" % (mode, task, name), "LLM reply %r at call %d (%s) came back as %r: the text in front of the marker was substituted" % (text, pos, task, rec.reply), pin={"hostile": [list(fault)]})
             if evaluated and isinstance(rec.reply, str) and text.strip().strip('"') in rec.reply:
                 out.probe("template_text_survived_literally")
         return task
@@ -194,6 +199,8 @@ class C17(RailsProp):
                 # dangerous for this particular call (a generated flow that only waits; literals for value generation)
                 lab = self._base_tasks[p]
                 special = ("shaped-steps-user-only",) if "next_steps" in lab else (("ellipsis", "python-import") if lab == "v2-value" else ())
+                if "bot_message" in lab or lab in ("general", "generate_intent_steps_message", "v2-other", "unknown"):
+                    special = special + ("dollar-price", d.choice(["dollar-var-first", "dollar-var-quoted"], "dollar", p))
                 for must in ("empty", "jinja-expr", "shaped-steps-inline-jinja", d.choice(corpus.SHAPED, "shaped", p)) + special:
                     if must not in pick:
                         pick.append(must)
